@@ -116,6 +116,9 @@ func callOf(v ssa.Value) *ssa.Call {
 // observation: does edge ce observe the accepting result of a repo call?
 // Returns the call if so.
 func (e *acceptEngine) observation(fn *ssa.Function, ce ir.CondEdge) *ssa.Call {
+	if ce.If == nil {
+		return nil
+	}
 	// bool result observed true
 	if isBoolType(ce.Cond.Type()) && ce.Truth {
 		if call := callOf(ce.Cond); call != nil {
@@ -140,7 +143,8 @@ func (e *acceptEngine) observation(fn *ssa.Function, ce ir.CondEdge) *ssa.Call {
 				continue
 			}
 			rs := callee.Signature.Results()
-			if rs.Len() == 1 && isErrorType(rs.At(0).Type()) {
+			// error-only, or (value, error) with a non-boolean value: nil error = accepted
+			if rs.Len() >= 1 && isErrorType(rs.At(rs.Len()-1).Type()) && !(rs.Len() > 1 && isBoolType(rs.At(0).Type())) {
 				return oc
 			}
 		}
@@ -190,14 +194,62 @@ func (e *acceptEngine) holdsAt(fn *ssa.Function, r *ssa.Return, f *fact) (bool, 
 	for _, l := range naturalLoops(fn) {
 		starts = append(starts, l.header)
 	}
-	for _, st := range starts {
-		if st != fn.Blocks[0] && !reachableBlock(fn, st) {
-			continue
+	reachable := func(target *ssa.BasicBlock) (bool, string) {
+		for _, st := range starts {
+			if st != fn.Blocks[0] && !reachableBlock(fn, st) {
+				continue
+			}
+			seen, prev := ir.Reach(fn, st, cut)
+			if seen[target.Index] {
+				return true, ir.PathTo(fn, prev, st.Index, target.Index, e.c.Pos)
+			}
 		}
-		seen, prev := ir.Reach(fn, st, cut)
-		if seen[r.Block().Index] {
-			return false, ir.PathTo(fn, prev, st.Index, r.Block().Index, e.c.Pos)
+		return false, ""
+	}
+	// a boolean result computed by an expression (a && b lowers to a phi whose
+	// edges carry `false` or the last conjunct): each edge that may carry true
+	// is judged on its own — the value on the edge is itself a condition that
+	// holds when the function accepts
+	if len(r.Results) > 0 && isBoolType(r.Results[0].Type()) {
+		type edgeVal struct {
+			val  ssa.Value
+			pred *ssa.BasicBlock
 		}
+		var evs []edgeVal
+		switch x := r.Results[0].(type) {
+		case *ssa.Phi:
+			for k, ev := range x.Edges {
+				evs = append(evs, edgeVal{ev, x.Block().Preds[k]})
+			}
+		case *ssa.Const:
+		default:
+			evs = append(evs, edgeVal{x, r.Block()})
+		}
+		if len(evs) > 0 {
+			for _, ev := range evs {
+				if k, ok := ev.val.(*ssa.Const); ok && k.Value != nil && !constant.BoolVal(k.Value) {
+					continue
+				}
+				if _, isConst := ev.val.(*ssa.Const); !isConst {
+					core, neg := ir.Peel(ev.val)
+					if f.direct(e.c, fn, ir.CondEdge{Cond: core, Truth: !neg}) {
+						continue
+					}
+					if call := callOf(core); call != nil && !neg {
+						if callee := ir.Callee(call); callee != nil && e.c.P.InLib(callee) && certArgsOK(fn, call) && e.establishes(callee, f) {
+							continue
+						}
+					}
+				}
+				if hit, w := reachable(ev.pred); hit {
+					return false, w
+				}
+			}
+			return true, ""
+		}
+	}
+	if hit, w := reachable(r.Block()); hit {
+		return false, w
 	}
 	return true, ""
 }
@@ -331,6 +383,9 @@ var factSerial = &fact{id: "serial", what: "the signer's serial number equals th
 
 var factSignature = &fact{id: "signature", what: "an RSA-SHA256 signature by the verifying certificate's key over the re-encoded signed attributes is valid",
 	direct: func(c *Ctx, fn *ssa.Function, ce ir.CondEdge) bool {
+		if ce.If == nil {
+			return false
+		}
 		v, nilWhenTrue, ok := ir.NilCheck(ce.If.Cond)
 		if !ok || !isErrorType(v.Type()) {
 			return false
